@@ -14,7 +14,10 @@ TRUSTED = [
     "translator/c12.py (constructor and setter guards of Geometry/Characteristics/Environment/APDCharacteristics -> "
     "Gen_C12.src_guards; count checks of _build_configuration and Configuration.__post_init__ -> src_checks; "
     "shape checks of the to_* builders and the dispatch chain; fails closed on any other shape)",
-    "the LITERAL table Model.Config.documented (documented ranges, from the property text, docstrings, error messages)",
+    "the LITERAL table Model.Config.documented (documented ranges, from the property text, docstrings, error messages) "
+    "and Model.Config.readout_settings",
+    "translator/c12.py on pyxel/exposure/readout.py: constructor parameters of Readout and the settings Readout.replace "
+    "carries over (Gen_C12.src_readout_params, src_replace_carried)",
     "correspondence harness: harness/props/c12.py generators, harness/drivers/c12.py (values as exact rationals), "
     "the defaults table DEFAULTS in harness/props/c12.py (what an absent key means)",
     "modelled, not verified: PyYAML parsing, numpy.arange (its value list is re-derived as a + i*s, ceil((b-a)/s) "
@@ -167,9 +170,21 @@ def gen_values(r, lo, hi, integer, seqlen, small, n_random):
     return vs
 
 
+def corpus_guard_cases():
+    """the formerly failing inputs of the repaired findings (harness/corpus/C12), run first on every run"""
+    out = []
+    d = core.VERIF / "harness" / "corpus" / "C12"
+    for f in sorted(d.glob("*.json")) if d.exists() else []:
+        for c in json.loads(f.read_text()).get("cases", []):
+            if c.get("k") == "guard":
+                out.append({k: c[k] for k in ("k", "cls", "field", "path", "det", "x")})
+    return out
+
+
 def gen_guard_cases(ctx: Ctx, n_random: int):
     r = ctx.rng("guards")
-    cases = []
+    cases = corpus_guard_cases()
+    ctx.cov["corpus_cases"] = len(cases)
     for cls, field, lo, hi, integer, seqlen in FIELDS:
         small = field in ("row", "col")
         for path in ("ctor", "yaml", "attr", "sweep"):
@@ -1240,8 +1255,12 @@ def run(ctx: Ctx):
 
     ctx.trusted += TRUSTED
     ctx.assumptions += [
-        "values range over None, finite numbers (as exact rationals), NaN and sequences by length; +-inf, bool, "
-        "strings and numpy arrays as field values are outside the quantifier",
+        "values range over None, finite numbers (as exact rationals), NaN, +-inf and sequences by length, carried by a "
+        "python int/float or by a numpy scalar (int64/int32/float32: not an instance of int | float); bool, strings, "
+        "numpy arrays and numpy +-inf as field values are outside the quantifier",
+        "+-inf is judged as an extended real: inside exactly the documented intervals that have no bound on that side",
+        "for a number carried by a numpy scalar the statement is one-directional (an out-of-range value is refused); a "
+        "guard may be type-strict about an in-range one (Environment.wavelength setter)",
         "integrality of row / col / adc_bit_resolution is not part of the documented range that is checked",
         "None is 'not specified': the constructor must take it iff the field is optional; no claim for setters",
         "documents use dyadic numbers so that every float operation of the loader is exact",
@@ -1291,11 +1310,13 @@ def run(ctx: Ctx):
     seen = {json.dumps([c["cls"], c["field"], c["path"], c["x"]], sort_keys=True) for c, _ in gp
             if c["x"]["t"] != "none"}
     ctx.cov["distinct_nontrivial"] = len(seen) + len(kp) + len(sp)
-    ctx.cov["rule"] = ("guard cases: distinct (field, path, value) with a value other than None (boundaries +-1 ulp, +-1, "
-                       "x2, x10, 0, -0, subnormal, 1e308, NaN, integers around the bounds, random; sequences of length "
-                       "0..4) for all 19 documented fields x 4 paths; key cases: all 128 subsets of the 3 mode and 4 "
-                       "detector keys; settings: distinct generated documents (4 detector types x 3 modes, optional keys "
-                       "present/absent, range expressions, probes and real models in the pipeline)")
+    ctx.cov["rule"] = ("guard cases: distinct (field, path, value) with a value other than None (corpus of the formerly "
+                       "failing inputs first; boundaries +-1 ulp, +-1, x2, x10, 0, -0, subnormal, 1e308, NaN, +-inf, integers "
+                       "around the bounds, random; the same numbers carried by numpy int64/int32/float32/float64 scalars; "
+                       "sequences of length 0..4) for all 19 documented fields x 4 paths; key cases: all 128 subsets of "
+                       "the 3 mode and 4 detector keys; settings: distinct generated documents (4 detector types x 3 modes, "
+                       "optional keys present/absent, range expressions, times from a file, outputs, algorithm parameters, "
+                       "probes and real models in the pipeline), each with 8 derived readouts and 2 sweep points")
     ctx.cov["traces_validated_against_impl"] = len(gp) + len(kp) + len(sp)
     ctx.cov["disagreements_checked"] = len(gm) + len(km)
     ctx.cov["exhaustive"] = {"top_level_key_subsets": 128}
@@ -1401,23 +1422,30 @@ def replay(ctx: Ctx, rp: dict) -> int:
 
 META = dict(
     level_text=(
-        "Coq theorems over guard tables regenerated from the source on every run: for every documented field of "
-        "Geometry(+subclasses)/Characteristics/Environment/APDCharacteristics, constructor guard and setter guard accept "
-        "exactly the documented range for ALL rationals, NaN and all sequence lengths (sound reflective checker over "
-        "half-lines), except on an explicit list of (field, side, value class) triples each of which is PROVED to be a real "
-        "disagreement (full statement refuted: unchecked adc_bit_resolution / adc_voltage_range setters, unchecked "
-        "pixel_scale constructor, truthiness preconditions, NaN slipping through `x < lo or x > hi`); the exactly-one "
-        "checks of the loader accept a key set iff it has exactly one mode and one detector (all key sets); the "
-        "document->settings map is proved lossless for a structural MODEL of the loader. That the code behaves like the "
-        "tables/model is established by correspondence (= testing): every field x 4 paths (constructor, YAML, attribute, "
-        "Processor.set) on boundary/out-of-range/NaN/None values, all 128 subsets of mode/detector keys through "
-        "pyxel.load, generated documents over 4 detectors x 3 modes read back leaf by leaf and compared inside Coq, and "
-        "run_mode on YAML-built vs Python-built objects for a sample."),
+        "Coq theorems over tables regenerated from the source on every run. REFUSAL, at full strength and without exception "
+        "list (C12_same_limits): for every documented field of Geometry(+subclasses)/Characteristics/Environment/"
+        "APDCharacteristics, the constructor guard and the setter guard accept a value carried by a python int/float "
+        "exactly when it is inside the documented range - for ALL rationals, NaN, +-inf and all sequence lengths - and "
+        "refuse every out-of-range number whatever carries it (numpy.int64/int32/float32 scalars included); decided by a "
+        "reflective checker over half-lines proved sound for all inputs (the 28 defects of the unrepaired tree that refuted "
+        "this statement were repaired by fix: commits; a regression makes the theorem fail and is reported with a concrete "
+        "input). EXACTLY-ONE: the regenerated count checks of the loader accept a key set iff it has exactly one mode and one "
+        "detector (all key sets). SETTINGS: the document->settings map is lossless and derived objects "
+        "(Readout.replace, regenerated list of carried settings; setters; sweep points) keep every setting that was not "
+        "changed - theorems about a structural MODEL. That the code behaves like the tables/model is established by "
+        "correspondence (= testing): every field x 4 paths (constructor, YAML, attribute, Processor.set) on boundary/"
+        "out-of-range/NaN/inf/None/numpy-carried values, all 128 subsets of mode/detector keys through pyxel.load, generated "
+        "documents over 4 detectors x 3 modes (readout incl. times_from_file, outputs, parameters, every Algorithm parameter, "
+        "fitness arguments ...) read back leaf by leaf and compared inside Coq and with the same objects built in Python, "
+        "derived readouts / sweep points compared inside Coq, run_mode on YAML-built vs Python-built objects, and dask "
+        "sweeps over observation.readout.times against one Python-built Exposure per point."),
     level_note=(
-        "Trusted: Coq kernel + vm_compute; translator/c12.py; the literal table of documented ranges and of defaults; "
-        "the correspondence harness and driver; PyYAML; numpy.arange on dyadic inputs. The loading half (settings "
-        "preserved, run equality) is testing of pyxel.load against a proved-lossless model, not a proof about the code. "
-        "The checker is sound but incomplete (a guard written as a union of intervals would be reported as unchecked)."),
+        "Trusted: Coq kernel + vm_compute; translator/c12.py; the literal table of documented ranges, of readout settings and "
+        "of defaults; the correspondence harness and driver; PyYAML; numpy.arange on dyadic inputs. The loading half (settings "
+        "preserved, derived objects, run equality) is testing of pyxel.load / Readout.replace / Processor.replace against a "
+        "proved model, not a proof about the code. The checker is sound but incomplete (a guard written as a union of "
+        "intervals would be reported as unchecked). Integrality of row/col/adc_bit_resolution is not part of the checked "
+        "range; a guard may be type-strict about in-range numpy scalars."),
     technique="Coq proof over regenerated guard tables (reflective interval checker) + in-Coq correspondence/spec evaluation",
     design_ref="DESIGN.md section 6, C12",
 )
